@@ -641,6 +641,15 @@ theorem c13_daemon_feeds_one_plain_item_table :
     (∀ r ∈ Gen.LysosomeClients.probeRuns, r.ok = true) ∧
     Gen.LysosomeClients.probeRuns.any (·.pruned) = true := by decide
 
+/-- (table, MEASURED on the real class on every run) What the library itself puts into the wastes it builds: a `Waste`
+    created without `created_at` carries the naive clock reading of its creation, and one `ingest_error(…)` / one
+    `ingest_sensitive(…)` call queues exactly one FAILED_OPERATION / TOXIC_BYPRODUCT item stamped that way — this is what
+    the model's convenience operations (`Stamp.now`) and the translator's `fresh` item take for granted. -/
+theorem c13_library_made_wastes_are_plain_table :
+    Gen.LysosomeClients.wasteDefaultStamp = some .now ∧
+    Gen.LysosomeClients.ingestErrorMakes = [.ingest .failedOp .now] ∧
+    Gen.LysosomeClients.ingestSensitiveMakes = [.ingest .toxic .now] := by decide
+
 /-- An application that shares its lysosome with the daemon: for any configuration and any interleaving of the
     application's own calls (none of which hands over a timezone-aware `created_at`) with daemon cycles — each behaving
     like one of the runs probed on the real `check_and_prune` — every call on the lysosome returns with a result:
